@@ -76,18 +76,19 @@ def pyFloat (s : Str) : Option Dec :=
 /-- `[^+\-dD]` -/
 def notSD (c : Char) : Bool := !(c = '+' || c = '-' || c = 'd' || c = 'D')
 
-/-- One attempt of `([+\-]?)([^+\-dD]*)([+-])([^+\-dD]*)` with group 1 fixed:
-    returns the text handed to `np.float64`. -/
+/-- One attempt of `re.fullmatch(r'([+\-]?)([^+\-dD]*)([+-])([^+\-dD]*)', s)` with group 1
+    fixed: group 2 is the maximal run without sign/D (the next character must be a
+    sign), group 4 must be the whole rest.  Returns the text handed to `np.float64`. -/
 def shortTry (g1 : Option Char) (rest : Str) : Option Str :=
   let g2 := rest.takeWhile notSD
   match rest.dropWhile notSD with
   | c :: r3 =>
-    if isSign c then
-      some ((if g1 = some '-' then ['-'] else []) ++ g2 ++ ['E', c] ++ r3.takeWhile notSD)
+    if isSign c && r3.all notSD then
+      some ((if g1 = some '-' then ['-'] else []) ++ g2 ++ ['E', c] ++ r3)
     else none
   | [] => none
 
-/-- `re.match` of the short-form regex: group 1 first tries the sign, then the
+/-- `re.fullmatch` of the short-form regex: group 1 first tries the sign, then the
     empty text (backtracking). -/
 def shortForm (s : Str) : Option Str :=
   match s with
@@ -98,6 +99,9 @@ def shortForm (s : Str) : Option Str :=
       | none => shortTry none s
     else shortTry none s
   | [] => none
+
+/-- `number_string.replace("D", "e").replace("d", "e")`, character by character -/
+def replD : Char → Char := fun c => if c = 'D' || c = 'd' then 'e' else c
 
 inductive NumErr where
   | valueError
@@ -115,7 +119,7 @@ def convertFortran (s : Str) : Except NumErr Dec :=
         | none => .error .valueError)      -- np.float64 raises inside the regex branch
       | none =>
         if s.any (fun c => c = 'D' || c = 'd') then
-          match pyFloat (s.map (fun c => if c = 'D' || c = 'd' then 'e' else c)) with
+          match pyFloat (s.map replD) with
           | some v => .ok v
           | none => .error .valueError
         else .error .valueError
